@@ -250,7 +250,16 @@ pub fn gen_context(d: &Data, r: &mut Rng) -> String {
 /// One rule line over the documented DSL.  Shapes known to hang or to overflow on the
 /// pinned tree (C02's territory) are not produced: no `$ > $`-style unconditioned
 /// boundary rewriting, no numeric literals beyond three digits.
+/// rules that parse but fail when applied (unbound alpha, unknown variable, deleting the only
+/// segment): a small pool, so that the same text recurs at different (group, line) positions
+/// in different calls and the *error payloads* are compared across histories
+pub const RUNTIME_ERR_RULES: [&str; 8] =
+    ["a > [Avoice]", "V > [Aback]", "C > [-Anas]", "C > 1", "V > 2:[+long]", "[] > *", "$ > *", "p > [Avoice, Bcont]"];
+
 pub fn gen_rule(d: &Data, r: &mut Rng) -> String {
+    if r.chance(1, 20) {
+        return r.pick(&RUNTIME_ERR_RULES[..]).to_string();
+    }
     match r.below(16) {
         0..=2 => r.pick(&d.test_rules).clone(),
         3 => r.pick(&d.example_rules).clone(),
